@@ -50,14 +50,16 @@ class VecFromDensity(E2Contract):
                "quara.utils.matrix_util:truncate_hs")
 
     def configs(self, tier):
-        return [("1q", None), ("1qt", None)] + ([("2q", None)] if tier == "thorough" else [])
+        # third component "F": the Hermitian matrix is handed over as a transposed view (Fortran memory order)
+        return [("1q", None), ("1qt", None), ("1qt", None, "F")] + ([("2q", None), ("2q", None, "F")] if tier == "thorough" else [])
 
     def inputs(self, W, cfg, mk):
         d = DIMS[cfg[0]]
         eps = mk.real("eps")
         mk.require(eps > 0)
         mk.require(eps <= 1e-2)
-        return dict(c_sys=make_csys(W, *cfg), rho=mk.hermitian("rho", d), eps=eps)
+        rho = mk.hermitian("rho", d)
+        return dict(c_sys=make_csys(W, *cfg[:2]), rho=rho.T if len(cfg) > 2 else rho, eps=eps)
 
     def sample(self, cfg, names, rng):
         vals = {n: rng.uniform(-1.5, 1.5) for n in names}
